@@ -19,7 +19,7 @@ INFO = dict(
               'next request is symbolic); concurrent calls on a multiplexed connection answered in any order / not at all; a timed-out '
               'multiplexed call whose late reply races a new call. Oracle: a call that returns a value returns echo(its own argument); the '
               "server's decoded request log (library codec) contains exactly the (method, argument) pairs the callers passed, each at most once.",
-  bounds={'quick': 'serial: 2 sequential calls on one pooled connection; mux: 2 concurrent calls + 1 follow-up call', 'thorough': 'serial: 3 sequential calls; mux: 3 concurrent calls + follow-up'},
+  bounds={'quick': 'serial: 2 sequential calls reusing one pooled connection; a time-out during a blocked write (none / half / all of the frame delivered) followed by a second call; 3 calls issued while the client is opening (both stacks); mux: 2 concurrent calls + 1 follow-up call, time-out then late reply then tag reuse, time-out during a blocked write then tag reuse', 'thorough': 'serial: 3 sequential calls; mux: 3 concurrent calls + follow-up; otherwise as quick'},
   outside=['more calls than the bound', 'argument values other than short ASCII strings (byte-level codec: C13/C14)'],
   stubs=['as C01 (virtual loop, fake TCP + scripted peers, timer/EMA math, random, zeroed mux Deadline bytes)',
          'pool max_watermark=1 via the public builder ReplaceRole() in the serial scenario, to force connection reuse'],
